@@ -1,11 +1,11 @@
 package main
 
-import "time"
-
 func init() {
 	plans["C09"] = Plan{Pkg: pkg("C09"), Steps: []Step{
-		{Run: "TestTruncationExhaustive", Kind: "test", QTimeout: 10 * time.Minute, TTimeout: 20 * time.Minute},
-		{Run: "TestTamperServer", Quick: 1600, Thorough: 60000, QShards: 8, TShards: 16},
-		{Run: "TestTamperClient", Quick: 1600, Thorough: 60000, QShards: 8, TShards: 16},
+		// not a rapid test: every process enumerates its share (VERIF_SHARD) of the
+		// policy x mode combinations, all truncation lengths each
+		{Run: "TestTruncationExhaustive", Quick: 1, Thorough: 1, QShards: 10, TShards: 10, FullChecks: true},
+		{Run: "TestTamperServer", Quick: 4000, Thorough: 60000, QShards: 16, TShards: 16},
+		{Run: "TestTamperClient", Quick: 4000, Thorough: 60000, QShards: 16, TShards: 16},
 	}}
 }
